@@ -345,8 +345,10 @@ impl Write for CountDigest { fn write(&mut self, b: &[u8]) -> std::io::Result<us
 pub fn c10(a: &Args) -> i32 {
     let dir = PathBuf::from(a.req("dir"));
     std::fs::create_dir_all(&dir).unwrap();
+    let dir = dir.canonicalize().unwrap();
     let rt = tokio::runtime::Builder::new_multi_thread().worker_threads(4).enable_all().build().unwrap();
     let mut out = util::NdJson::create(&a.req("out"));
+    let mut sysout = util::NdJson::create(&a.str("sys-out", "/dev/null"));
     let old = b"previous content of the destination".to_vec();
     let mut cases = 0u64;
     let mut case_id = 0u64;
@@ -357,6 +359,7 @@ pub fn c10(a: &Args) -> i32 {
         let srv = start("writer", opts, &rt);
         let n = 50usize;
         let complete = produced(n);
+        let exe = std::env::current_exe().unwrap();
         let mut run = |scenario: &str, fault: Value, pre_exists: bool, puller: &str, addr: std::net::SocketAddr, resource: &str, out: &mut util::NdJson| {
             case_id += 1;
             let dest = dir.join(format!("dest-{case_id}.bin"));
@@ -377,6 +380,12 @@ pub fn c10(a: &Args) -> i32 {
                     let tl = if puller == "trailer_too_long" { n + 5 } else { 8 };
                     let reject = puller == "trailer_reject";
                     svs::pull_to_file_trailer_verified(&c, resource, &dest, tl, CountDigest(Arc::new(AtomicUsize::new(0))), move |_d, _t| if reject { Err(RepeError::Io(std::io::Error::other("trailer mismatch"))) } else { Ok(()) }).map_err(|e| e.to_string())
+                }),
+                "trailer_async" | "trailer_async_reject" | "trailer_async_too_long" => rt.block_on(async {
+                    let c = AsyncClient::connect(addr).await.map_err(|e| e.to_string())?;
+                    let tl = if puller == "trailer_async_too_long" { n + 5 } else { 8 };
+                    let reject = puller == "trailer_async_reject";
+                    svs::pull_to_file_trailer_verified_async(&c, resource, &dest, tl, CountDigest(Arc::new(AtomicUsize::new(0))), move |_d, _t| if reject { Err(RepeError::Io(std::io::Error::other("trailer mismatch"))) } else { Ok(()) }).await.map_err(|e| e.to_string())
                 }),
                 _ => Err("?".into()),
             };
@@ -404,6 +413,10 @@ pub fn c10(a: &Args) -> i32 {
             run("trailer_ok", json!("none"), pre, "trailer", srv.addr, &format!("n={n},w=5,fail=-1,ps=0"), &mut out); cases += 1;
             run("trailer_reject", json!("none"), pre, "trailer_reject", srv.addr, &format!("n={n},w=5,fail=-1,ps=0"), &mut out); cases += 1;
             run("trailer_too_long", json!("none"), pre, "trailer_too_long", srv.addr, &format!("n={n},w=5,fail=-1,ps=0"), &mut out); cases += 1;
+            run("trailer_ok", json!("none"), pre, "trailer_async", srv.addr, &format!("n={n},w=5,fail=-1,ps=0"), &mut out); cases += 1;
+            run("trailer_reject", json!("none"), pre, "trailer_async_reject", srv.addr, &format!("n={n},w=5,fail=-1,ps=0"), &mut out); cases += 1;
+            run("trailer_too_long", json!("none"), pre, "trailer_async_too_long", srv.addr, &format!("n={n},w=5,fail=-1,ps=0"), &mut out); cases += 1;
+            for f in [0usize, 17, 41, 43, 49] { for p in ["trailer", "trailer_async", "verified_accept"] { run("producer_failure", json!(f), pre, p, srv.addr, &format!("n={n},w=7.3,fail={f},ps=0"), &mut out); cases += 1; } }
         }
         // a value-decoding pull on a truncated stream must return an error, never a value
         let vsrv = start("typed", opts, &rt);
@@ -413,43 +426,136 @@ pub fn c10(a: &Args) -> i32 {
             out.push(&json!({"ev": "decode", "scenario": "connection_cut", "fault": k, "comp": compu, "returned_value": r.unwrap_or(false)}));
             cases += 1;
         }
-        // ---- process death: the child pulls under strace fault injection
+        // ---- syscall-level traces and process death: the child pulls under strace; every syscall touching the
+        // temp or destination path is logged, and a SIGKILL is injected at each of them in turn
         if !a.flag("no-kill") {
-            let exe = std::env::current_exe().unwrap();
+            let thorough = a.flag("thorough");
             for pre in [false, true] {
-                for call in ["write", "fsync", "rename", "close"] {
-                    for when in 1..=a.usize("kill-points", 8) {
-                        case_id += 1;
-                        let dest = dir.join(format!("kdest-{case_id}.bin"));
-                        let _ = std::fs::remove_file(&dest);
-                        let _ = std::fs::remove_file(tmp_of(&dest));
-                        if pre { std::fs::write(&dest, &old).unwrap(); }
-                        let st = std::process::Command::new("strace")
-                            .args(["-f", "-o", "/dev/null", "-P", tmp_of(&dest).to_str().unwrap(), "-P", dest.to_str().unwrap(),
-                                   "-e", &format!("trace={call}"), "-e", &format!("inject={call}:signal=KILL:when={when}")])
-                            .arg(&exe).args(["vs-pull-child", "--addr", &srv.addr.to_string(), "--resource", &format!("n={n},w=7.3,fail=-1,ps=0"), "--dest", dest.to_str().unwrap()])
-                            .stdout(std::process::Stdio::null()).stderr(std::process::Stdio::null()).status();
-                        use std::os::unix::process::ExitStatusExt;
-                        let (killed, okexit) = match &st { Ok(s) => (s.signal().is_some() || s.code() == Some(137), s.success()), Err(_) => (false, false) };
-                        if st.is_err() { out.push(&json!({"ev": "tool_error", "what": "strace could not be run"})); break; }
-                        out.push(&json!({"ev": "commit", "scenario": "killed", "fault": format!("{call}#{when}"), "puller": "pull_to_file(child)", "comp": compu, "pre": if pre { "old" } else { "absent" },
-                                         "ok": okexit, "err": "", "dest": classify_file(&dest, &old, &complete), "tmp_exists": tmp_of(&dest).exists(), "killed": killed}));
-                        cases += 1;
-                        let _ = std::fs::remove_file(&dest);
-                        let _ = std::fs::remove_file(tmp_of(&dest));
+                for puller in ["pull_to_file", "pull_to_file_async", "verified", "trailer", "trailer_async"] {
+                    let mut scen: Vec<(&str, String, bool)> = vec![("complete", format!("n={n},w=7.3,fail=-1,ps=0"), false), ("producer_failure", format!("n={n},w=7.3,fail=33,ps=0"), false)];
+                    if thorough { for f in [0usize, 16, 17, 49] { scen.push(("producer_failure", format!("n={n},w=7.3,fail={f},ps=0"), false)); } }
+                    if puller != "pull_to_file" && puller != "pull_to_file_async" { scen.push(("verifier_rejects", format!("n={n},w=5,fail=-1,ps=0"), true)); }
+                    for (scenario, resource, reject) in scen {
+                        let want_len = if puller.starts_with("trailer") { n - 8 } else { n };
+                        let mut sysrun = |inject: Option<(String, usize)>, out: &mut util::NdJson| -> Vec<(String, usize)> {
+                            case_id += 1;
+                            let dest = dir.join(format!("kdest-{case_id}.bin"));
+                            let tmp = tmp_of(&dest);
+                            let log = dir.join(format!("strace-{case_id}.log"));
+                            let _ = std::fs::remove_file(&dest);
+                            let _ = std::fs::remove_file(&tmp);
+                            if pre { std::fs::write(&dest, &old).unwrap(); }
+                            let mut cmd = std::process::Command::new("strace");
+                            cmd.args(["-f", "-y", "-o", log.to_str().unwrap(), "-P", tmp.to_str().unwrap(), "-P", dest.to_str().unwrap(), "-e", SYS_TRACE]);
+                            if let Some((call, when)) = &inject { cmd.args(["-e", &format!("inject={call}:signal=KILL:when={when}")]); }
+                            cmd.arg(&exe).args(["vs-pull-child", "--addr", &srv.addr.to_string(), "--resource", &resource, "--dest", dest.to_str().unwrap(), "--puller", puller]);
+                            if reject { cmd.arg("--reject"); }
+                            let st = cmd.stdout(std::process::Stdio::null()).stderr(std::process::Stdio::null()).status();
+                            use std::os::unix::process::ExitStatusExt;
+                            let Ok(st) = st else { out.push(&json!({"ev": "tool_error", "what": "strace could not be run"})); return vec![]; };
+                            let killed = st.signal().is_some() || st.code() == Some(137);
+                            let fault = inject.as_ref().map(|(c, w)| format!("{c}#{w}")).unwrap_or("none".into());
+                            out.push(&json!({"ev": "begin", "scenario": scenario, "fault": fault, "puller": puller, "comp": compu, "pre": if pre { "old" } else { "absent" }, "resource": resource}));
+                            let calls = parse_strace(&std::fs::read_to_string(&log).unwrap_or_default(), tmp.to_str().unwrap(), dest.to_str().unwrap(), want_len, out);
+                            let tmpc = match std::fs::read(&tmp) { Err(_) => "absent", Ok(b) if b.is_empty() => "empty", Ok(b) if b == complete[..want_len] => "complete", Ok(b) if complete.starts_with(&b) => "partial", Ok(_) => "other" };
+                            out.push(&json!({"ev": "end", "scenario": scenario, "fault": fault, "puller": puller, "comp": compu, "pre": if pre { "old" } else { "absent" },
+                                             "ok": st.success(), "killed": killed, "dest": classify_file(&dest, &old, &complete[..want_len]), "tmp": tmpc,
+                                             "must": if scenario == "complete" { "succeed" } else { "fail" }}));
+                            let _ = std::fs::remove_file(&dest);
+                            let _ = std::fs::remove_file(&tmp);
+                            if !a.flag("keep-logs") { let _ = std::fs::remove_file(&log); }
+                            calls
+                        };
+                        let calls = sysrun(None, &mut sysout); cases += 1;
+                        // kill at every syscall the unkilled run made on those paths (n-th call of its kind)
+                        let mut seen: std::collections::BTreeMap<String, usize> = Default::default();
+                        let mut points: Vec<(String, usize)> = vec![];
+                        for (c, _) in &calls { let k = seen.entry(c.clone()).or_insert(0); *k += 1; points.push((c.clone(), *k)); }
+                        let cap = a.usize("kill-points", 64);
+                        for (i, pt) in points.into_iter().enumerate() {
+                            if i >= cap { break; }
+                            if !thorough && scenario != "complete" && !(pt.0 == "unlink" || pt.0 == "unlinkat" || i == 1) { continue; }
+                            sysrun(Some(pt), &mut sysout); cases += 1;
+                        }
                     }
                 }
             }
         }
     }
     out.finish();
+    sysout.finish();
     util::write_json(&a.str("summary", "/dev/null"), &json!({"cases": cases}));
     rt.shutdown_timeout(Duration::from_secs(1));
     0
 }
 
+const SYS_TRACE: &str = "trace=openat,open,creat,write,pwrite64,writev,fsync,fdatasync,rename,renameat,renameat2,unlink,unlinkat,close,ftruncate,truncate,link,linkat,symlink,symlinkat";
+
+/// Turn an `strace -f -y -P tmp -P dest` log into one "sys" event per completed syscall; returns (syscall, index) list.
+fn parse_strace(log: &str, tmp: &str, dest: &str, want_len: usize, out: &mut util::NdJson) -> Vec<(String, usize)> {
+    let mut partial: std::collections::HashMap<String, String> = Default::default();
+    let mut cum = 0usize;
+    let mut calls = vec![];
+    for line in log.lines() {
+        let Some((pid, rest)) = line.split_once(' ') else { continue };
+        let mut rest = rest.trim_start().to_string();
+        if rest.starts_with("+++") || rest.starts_with("---") { continue; }
+        if rest.ends_with("<unfinished ...>") { partial.insert(pid.to_string(), rest.trim_end_matches("<unfinished ...>").to_string()); continue; }
+        if rest.starts_with("<...") {
+            let Some(p) = partial.remove(pid) else { continue };
+            let after = rest.split_once("resumed>").map(|x| x.1).unwrap_or("").to_string();
+            rest = p + &after;
+        }
+        let Some(paren) = rest.find('(') else { continue };
+        let name = rest[..paren].to_string();
+        let ret = rest.rsplit_once(" = ").map(|x| x.1.trim().to_string()).unwrap_or_default();
+        let retn: Option<i64> = { let t: String = ret.chars().enumerate().take_while(|(i, c)| c.is_ascii_digit() || (*i == 0 && *c == '-')).map(|x| x.1).collect(); t.parse().ok() };
+        let args = &rest[paren + 1..rest.rfind(" = ").unwrap_or(rest.len())];
+        let on_tmp_fd = args.contains(&format!("<{tmp}>"));
+        let on_dest_fd = args.contains(&format!("<{dest}>"));
+        let q_tmp = args.contains(&format!("\"{tmp}\""));
+        let q_dest = args.contains(&format!("\"{dest}\""));
+        if retn.is_none() { continue; } // "= ?": the kill landed on entering this call; it did not execute
+        calls.push((name.clone(), calls.len()));
+        let failed = retn.unwrap() < 0;
+        let what = match name.as_str() {
+            "openat" | "open" | "creat" if q_tmp && !failed && (args.contains("O_CREAT") || name == "creat") => "create_tmp",
+            "write" | "pwrite64" | "writev" if on_tmp_fd && !failed => { cum += retn.unwrap() as usize; "write_tmp" }
+            "fsync" | "fdatasync" if on_tmp_fd && !failed => "sync_tmp",
+            "close" if on_tmp_fd => "close_tmp",
+            "rename" | "renameat" | "renameat2" if q_tmp && q_dest && !failed && args.find(&format!("\"{tmp}\"")) < args.find(&format!("\"{dest}\"")) => "rename",
+            "unlink" | "unlinkat" if q_tmp && !q_dest && !failed => "unlink_tmp",
+            "unlink" | "unlinkat" if q_tmp && failed => "noop",
+            _ => "other",
+        };
+        let _ = on_dest_fd;
+        out.push(&json!({"ev": "sys", "what": what, "cum": cum, "full": cum == want_len, "over": cum > want_len, "call": rest.chars().take(160).collect::<String>()}));
+    }
+    calls
+}
+
 pub fn pull_child(a: &Args) -> i32 {
     let addr: std::net::SocketAddr = a.req("addr").parse().unwrap();
-    let c = Client::connect(addr).unwrap();
-    match svs::pull_to_file(&c, &a.req("resource"), Path::new(&a.req("dest"))) { Ok(()) => 0, Err(_) => 3 }
+    let dest = PathBuf::from(a.req("dest"));
+    let resource = a.req("resource");
+    let reject = a.flag("reject");
+    let puller = a.str("puller", "pull_to_file");
+    let verdict = move || if reject { Err(RepeError::Io(std::io::Error::other("rejected"))) } else { Ok(()) };
+    let r: Result<(), String> = match puller.as_str() {
+        "pull_to_file" => { let c = Client::connect(addr).unwrap(); svs::pull_to_file(&c, &resource, &dest).map_err(|e| e.to_string()) }
+        "trailer" => { let c = Client::connect(addr).unwrap(); svs::pull_to_file_trailer_verified(&c, &resource, &dest, 8, CountDigest(Arc::new(AtomicUsize::new(0))), move |_d, _t| verdict()).map_err(|e| e.to_string()) }
+        _ => {
+            let rt = tokio::runtime::Builder::new_multi_thread().worker_threads(2).enable_all().build().unwrap();
+            rt.block_on(async {
+                let c = AsyncClient::connect(addr).await.map_err(|e| e.to_string())?;
+                match puller.as_str() {
+                    "pull_to_file_async" => svs::pull_to_file_async(&c, &resource, &dest).await.map(|_| ()).map_err(|e| e.to_string()),
+                    "verified" => svs::pull_to_file_verified_async(&c, &resource, &dest, CountDigest(Arc::new(AtomicUsize::new(0))), move |_d| verdict()).await.map_err(|e| e.to_string()),
+                    "trailer_async" => svs::pull_to_file_trailer_verified_async(&c, &resource, &dest, 8, CountDigest(Arc::new(AtomicUsize::new(0))), move |_d, _t| verdict()).await.map_err(|e| e.to_string()),
+                    _ => Err("unknown puller".into()),
+                }
+            })
+        }
+    };
+    match r { Ok(()) => 0, Err(_) => 3 }
 }
